@@ -90,12 +90,12 @@ theorem unauth_check_bookkeeping (w : World) :
   · have := finishCheckErr_lastUpdate (.omahaRequest .cupValidation) w
     simpa [talkedToOmaha] using this
   · show (finishCheckErr _ w).ctx.st.poll = _
-    unfold finishCheckErr
+    unfold finishCheckErr prepareErr
     simp only [talkedToOmaha, Bool.false_eq_true, if_false]
     rw [(closeCheck_frame _ _).1]
     rfl
   · show (finishCheckErr _ w).apps = _
-    unfold finishCheckErr
+    unfold finishCheckErr prepareErr
     simp only [talkedToOmaha, Bool.false_eq_true, if_false]
     rw [(closeCheck_frame _ _).2.1]
     rfl
